@@ -177,7 +177,7 @@ def ensure_facts(config="prod", quiet=False):
             "RUSTC": rustc,
             "RUSTC_WORKSPACE_WRAPPER": AIRLINT,
             "LD_LIBRARY_PATH": os.path.join(sysroot, "lib") + ":" + env.get("LD_LIBRARY_PATH", ""),
-            "RUSTFLAGS": "--cap-lints allow -Zmir-opt-level=0",
+            "RUSTFLAGS": "--cap-lints allow -Zmir-opt-level=0 -C debug-assertions=no -C overflow-checks=yes",
             "CARGO_TARGET_DIR": target,
             "AIRLINT_OUT": out,
         })
